@@ -822,7 +822,10 @@ class GoalGen:
             return self.if_goal(scope, depth)
         if r < 0.93:
             return ("eq", self.pick_ty(scope, 0.7), self.pick_ty(scope, 0.5))
-        return ("not", ("atom", self.atom(scope, 0.8)))
+        # `not` only around CLOSED goals (the properties' goal language): chalk reads a
+        # placeholder under `not` by inversion (forall<X> not G == not exists<X> G), which is
+        # not the generic-constant reading
+        return ("and", (("atom", self.atom(scope, 0.8)), ("not", self.ground_atom())))
 
     def forall_goal(self, depth=1):
         vs = tuple(self.fresh() for _ in range(self.rng.choice([1, 1, 2])))
@@ -905,20 +908,20 @@ def goal_vars(g, acc=None):
 
 
 def is_floundering_prone(g):
-    """`not` around a goal that mentions an existential variable of an enclosing binder:
-    chalk flounders there; such goals are outside the property's goal language."""
-    def walk(x, evars):
+    """True if some `not` surrounds a goal with a free variable (bound by an enclosing
+    `exists` or `forall`): under `exists` chalk flounders, under `forall` it inverts the
+    placeholder into an existential (forall<X> not G  ==  not exists<X> G).  Both are outside
+    the goal language of the properties (`not` around closed goals only)."""
+    def walk(x, bound):
         k = x[0]
         if k == "not":
-            return bool(goal_vars(x[1]) & evars) or walk(x[1], evars)
+            return bool(goal_vars(x[1]) & bound) or walk(x[1], set())
         if k == "and":
-            return any(walk(y, evars) for y in x[1])
-        if k == "exists":
-            return walk(x[2], evars | set(x[1]))
-        if k == "forall":
-            return walk(x[2], evars)
+            return any(walk(y, bound) for y in x[1])
+        if k in ("exists", "forall"):
+            return walk(x[2], bound | set(x[1]))
         if k == "if":
-            return walk(x[2], evars)
+            return walk(x[2], bound)
         return False
     return walk(g, set())
 
